@@ -35,10 +35,14 @@ MAGIC = {".gz": b"\x1f\x8b", ".bz2": b"BZh", ".xz": b"\xfd7zXZ"}
 IO_STR = ["abc", "a,b", 'say "hi"', "line1\nline2", "semi;colon", "tab\there", "pipe|d", "ünï", "日本語", " lead", "trail ", "'single'",
           "back\\slash", "x", "née", "Zoë", "\U0001F600 smile", "q" * 60,
           # characters that str.splitlines() treats as line boundaries but file iteration / CSV parsers do not
-          "ls\u2028sep", "ps\u2029sep", "nel\x85x", "vt\x0bx", "ff\x0cx", "fs\x1cx"]
-LATIN = ["abc", "a,b", 'say "hi"', "ünï", "née", "Zoë", "semi;colon", "x y", "line1\nline2", "pipe|d"]
+          "ls\u2028sep", "ps\u2029sep", "nel\x85x", "vt\x0bx", "ff\x0cx", "fs\x1cx",
+          # ordinary strings that some parsers read as null markers
+          "NA", "N/A", "null", "NULL", "nan", "NaN", "#N/A", "None", "n/a"]
+LATIN = ["abc", "a,b", 'say "hi"', "ünï", "née", "Zoë", "semi;colon", "x y", "line1\nline2", "pipe|d", "NA", "null", "nan", "N/A"]
 
 FORMATS = ["pickle", "npz", "parquet", "csv", "csv", "json", "lod-json", "lod-csv", "lod-pickle"]
+
+NULLISH = {"NA", "N/A", "null", "NULL", "nan", "NaN", "#N/A", "None", "n/a", "true", "false", "True", "False", "inf"}      # text a type-inferring reader takes for null / bool / number
 
 def _str_values(rng, n, pool, na):
     vals = [rng.choice(pool) for _ in range(n)]
@@ -47,7 +51,7 @@ def _str_values(rng, n, pool, na):
     elif na == "some":
         vals = [None if rng.random() < 0.3 else v for v in vals]
     elif na == "last": vals[-1] = None
-    if all(v is None for v in vals) or not any(v is not None and any(ch.isalpha() for ch in v) for v in vals):
+    if all(v is None for v in vals) or not any(v is not None and v not in NULLISH and any(ch.isalpha() for ch in v) for v in vals):
         vals[anchor if anchor or na != "first" else n - 1 if n > 1 else 0] = "abc"
     return vals
 
